@@ -503,6 +503,30 @@ Proof.
 Qed.
 
 (* ------------------------------------------------------------------ *)
+(* the retire tasks: each run is an idle decision on one stream, i.e. nothing or a kill *)
+
+Definition fire_list (sp : sstate) (l : list nat) : sstate :=
+  fold_left (fun g' i => if st_retire (sp_get g' i) then fst (sp_idle_task g' i retire_period) else g') l sp.
+
+Lemma idle_task_cases sp i p : fst (sp_idle_task sp i p) = sp \/ fst (sp_idle_task sp i p) = sp_kill sp i.
+Proof.
+  unfold sp_idle_task. destruct (negb _); simpl; auto. destruct (_ && _); simpl; auto.
+Qed.
+
+Lemma fire_ind (P : sstate -> Prop) l :
+  (forall s i, P s -> P (sp_kill s i)) -> forall sp, P sp -> P (fire_list sp l).
+Proof.
+  intros Hk. induction l as [|i l IH]; intros sp H; [exact H|].
+  change (fire_list sp (i :: l))
+    with (fire_list (if st_retire (sp_get sp i) then fst (sp_idle_task sp i retire_period) else sp) l).
+  apply IH. destruct (st_retire (sp_get sp i)); auto.
+  destruct (idle_task_cases sp i retire_period) as [E|E]; rewrite E; auto.
+Qed.
+
+Lemma fire_step sp : fst (sstep sp GFire) = fire_list sp (seq 0 (length (sp_streams sp))).
+Proof. reflexivity. Qed.
+
+(* ------------------------------------------------------------------ *)
 (* one step: the implementation started in [absg sp] answers like the specification and ends in
    [absg] of the specification's next state *)
 
@@ -517,7 +541,7 @@ Proof. reflexivity. Qed.
 
 Lemma keys_ok_step sp o : keys_ok sp -> keys_ok (fst (sstep sp o)).
 Proof.
-  intros Hok. destruct o as [p hls|i|i|i|p| | |i flv|i flv|i r| |d|i|i|i n]; simpl.
+  intros Hok. destruct o as [p hls|i|i|i|p| | |i flv|i flv|i r| |d|i|i|i n|]; simpl.
   - apply keys_ok_new; exact Hok.
   - destruct (i <? length (sp_streams sp))%nat eqn:Hi; simpl; [|exact Hok].
     apply Nat.ltb_lt in Hi.
@@ -548,13 +572,41 @@ Proof.
     apply keys_ok_set; auto.
   - destruct (negb (i <? length (sp_streams sp))%nat || negb (hls_usable (sp_get sp i))); simpl; auto.
     apply keys_ok_set; auto.
+  - exact (fire_ind keys_ok (seq 0 (length (sp_streams sp))) (fun s i H => keys_ok_kill s i H) sp Hok).
+Qed.
+
+Lemma idle_refines sp i p :
+  keys_ok sp ->
+  idle_task rfixed (absg sp) i p = (absg (fst (sp_idle_task sp i p)), snd (sp_idle_task sp i p)).
+Proof.
+  intros Hok. unfold idle_task, sp_idle_task. change (g_streams (absg sp)) with (sp_streams sp).
+  change (sget (absg sp) i) with (sp_get sp i).
+  destruct (i <? length (sp_streams sp))%nat; simpl negb; cbv iota; [|reflexivity].
+  change (v_anycons rfixed) with true. cbv iota.
+  destruct ((consumers (sp_get sp i) <=? 0) && negb (hls_recent (sp_get sp i) p)); [|reflexivity].
+  rewrite close_is_kill by exact Hok. reflexivity.
+Qed.
+
+Lemma fire_refines l : forall sp,
+  keys_ok sp ->
+  fold_left (fun g' i => if st_retire (sget g' i) then fst (idle_task rfixed g' i retire_period) else g') l (absg sp) =
+  absg (fire_list sp l).
+Proof.
+  induction l as [|i l IH]; intros sp Hok; [reflexivity|].
+  change (fire_list sp (i :: l))
+    with (fire_list (if st_retire (sp_get sp i) then fst (sp_idle_task sp i retire_period) else sp) l).
+  cbn [fold_left]. change (sget (absg sp) i) with (sp_get sp i).
+  destruct (st_retire (sp_get sp i)).
+  - rewrite idle_refines by exact Hok. cbn [fst]. apply IH.
+    destruct (idle_task_cases sp i retire_period) as [E|E]; rewrite E; [exact Hok | apply keys_ok_kill; exact Hok].
+  - apply IH; exact Hok.
 Qed.
 
 Lemma step_refines sp o :
   keys_ok sp -> op_wf sp o = true ->
   gstep rfixed (absg sp) o = (absg (fst (sstep sp o)), snd (sstep sp o)).
 Proof.
-  intros Hok Hwf. destruct o as [p hls|i|i|i|p| | |i flv|i flv|i r| |d|i|i|i n].
+  intros Hok Hwf. destruct o as [p hls|i|i|i|p| | |i flv|i flv|i r| |d|i|i|i n|].
   - (* GNew *) simpl. rewrite absg_new by exact Hok. reflexivity.
   - (* GRegist *)
     simpl in Hwf. apply andb_true_iff in Hwf as [Hi Hl].
@@ -606,13 +658,7 @@ Proof.
     destruct (st_live (sp_get sp i)) eqn:Hl; simpl negb; cbv iota; [|reflexivity].
     destruct ((if flv then st_flv (sp_get sp i) else st_rtp (sp_get sp i)) <=? 0); [reflexivity|].
     rewrite absg_set by (simpl; congruence). reflexivity.
-  - (* GIdle *)
-    unfold gstep, sstep. change (g_streams (absg sp)) with (sp_streams sp).
-    change (sget (absg sp) i) with (sp_get sp i).
-    destruct (i <? length (sp_streams sp))%nat; simpl negb; cbv iota; [|reflexivity].
-    change (v_anycons rfixed) with true. cbv iota.
-    destruct ((consumers (sp_get sp i) <=? 0) && negb (hls_recent (sp_get sp i) r)); [|reflexivity].
-    rewrite close_is_kill by exact Hok. reflexivity.
+  - (* GIdle *) exact (idle_refines sp i r Hok).
   - (* GUnregistAll *)
     exact (f_equal (fun x => (x, RUnit)) (unregist_all_refines sp Hok)).
   - (* GTick *)
@@ -633,6 +679,8 @@ Proof.
     change (sget (absg sp) i) with (sp_get sp i).
     destruct (negb (i <? length (sp_streams sp))%nat || negb (hls_usable (sp_get sp i))); [reflexivity|].
     rewrite absg_set by reflexivity. reflexivity.
+  - (* GFire *)
+    exact (f_equal (fun x => (x, RUnit)) (fire_refines (seq 0 (length (sp_streams sp))) sp Hok)).
 Qed.
 
 Lemma run_refines ops : forall sp,
@@ -753,7 +801,7 @@ Qed.
 
 Lemma cnt_ok_step sp o : cnt_ok sp -> cnt_ok (fst (sstep sp o)).
 Proof.
-  intros Hc. destruct o as [p hls|i|i|i|p| | |i flv|i flv|i r| |d|i|i|i n]; simpl.
+  intros Hc. destruct o as [p hls|i|i|i|p| | |i flv|i flv|i r| |d|i|i|i n|]; simpl.
   - intros j. unfold sp_get; simpl. rewrite nth_snoc.
     destruct (j <? length (sp_streams sp))%nat; [apply Hc|].
     destruct (Nat.eqb j (length (sp_streams sp))); simpl; lia.
@@ -787,6 +835,7 @@ Proof.
     apply cnt_ok_set; simpl; auto; apply Hc.
   - destruct (negb (i <? length (sp_streams sp))%nat || negb (hls_usable (sp_get sp i))); simpl; auto.
     apply cnt_ok_set; simpl; auto; apply Hc.
+  - exact (fire_ind cnt_ok (seq 0 (length (sp_streams sp))) (fun s i H => cnt_ok_kill s i H) sp Hc).
 Qed.
 
 Lemma cnt_ok_init : cnt_ok sinit.
@@ -942,7 +991,7 @@ Qed.
 (* liveness is never regained, and stream numbers are never reused *)
 Lemma length_step sp o : (length (sp_streams sp) <= length (sp_streams (fst (sstep sp o))))%nat.
 Proof.
-  destruct o as [p hls|i|i|i|p| | |i flv|i flv|i r| |d|i|i|i n]; simpl; auto.
+  destruct o as [p hls|i|i|i|p| | |i flv|i flv|i r| |d|i|i|i n|]; simpl; auto.
   - rewrite app_length. simpl. lia.
   - destruct (i <? length (sp_streams sp))%nat; simpl; auto.
     destruct (sp_resolve sp (st_path (sp_get sp i))) as [j|]; simpl; auto.
@@ -967,6 +1016,8 @@ Proof.
     rewrite lset_length; auto.
   - destruct (negb (i <? length (sp_streams sp))%nat || negb (hls_usable (sp_get sp i))); simpl; auto.
     rewrite lset_length; auto.
+  - apply (fire_ind (fun s => (length (sp_streams sp) <= length (sp_streams s))%nat) (seq 0 (length (sp_streams sp))));
+      [intros s i0 H; rewrite length_kill; exact H | auto].
 Qed.
 
 Lemma dead_step sp o j :
@@ -980,7 +1031,7 @@ Proof.
                                st_live (sp_get (sp_set s i v) j) = false).
   { intros s i v H Hv. rewrite sp_get_set. destruct (Nat.eqb j i && _)%bool eqn:E; auto.
     apply andb_true_iff in E as [E _]. apply Nat.eqb_eq in E. auto. }
-  destruct o as [p hls|i|i|i|p| | |i flv|i flv|i r| |d|i|i|i n]; simpl; auto.
+  destruct o as [p hls|i|i|i|p| | |i flv|i flv|i r| |d|i|i|i n|]; simpl; auto.
   - unfold sp_get; simpl. rewrite nth_snoc. apply Nat.ltb_lt in Hj. rewrite Hj. exact Hd.
   - destruct (i <? length (sp_streams sp))%nat; simpl; auto.
     destruct (sp_resolve sp (st_path (sp_get sp i))) as [x|]; simpl; auto.
@@ -1008,6 +1059,8 @@ Proof.
     apply Hset; auto. intros ->. exact Hd.
   - destruct (negb (i <? length (sp_streams sp))%nat || negb (hls_usable (sp_get sp i))); simpl; auto.
     apply Hset; auto. intros ->. exact Hd.
+  - apply (fire_ind (fun s => st_live (sp_get s j) = false) (seq 0 (length (sp_streams sp))));
+      [intros s i0 H; apply Hkill; exact H | exact Hd].
 Qed.
 
 Lemma dead_forever ops : forall sp j,
@@ -1160,7 +1213,7 @@ Proof.
   { intros s0 i v E H1 H2. rewrite <- (E i) in H1, H2.
     destruct (hls_set s0 i v j H1 H2) as [A [B C]]. rewrite (E j) in *.
     split; [auto|]. intros _. split; auto. destruct o; simpl; lia. }
-  unfold sp'. destruct o as [p hls|i|i|i|p| | |i flv|i flv|i r| |d|i|i|i n]; simpl.
+  unfold sp'. destruct o as [p hls|i|i|i|p| | |i flv|i flv|i r| |d|i|i|i n|]; simpl.
   - unfold sp_get; simpl. rewrite nth_snoc.
     destruct (j <? length (sp_streams sp))%nat eqn:L.
     + fold (sp_get sp j). split; auto. intros _. split; auto. lia.
@@ -1204,6 +1257,12 @@ Proof.
   - destruct (negb (i <? length (sp_streams sp))%nat || negb (hls_usable (sp_get sp i))); simpl;
       [apply Hsame; reflexivity|].
     apply Hset; simpl; auto. pose proof (Ha i). lia.
+  - apply (fire_ind (fun s => 0 <= st_hls_idle (sp_get s j) /\
+        ((j < length (sp_streams sp))%nat ->
+         st_hls (sp_get s j) = st_hls (sp_get sp j) /\
+         st_hls_idle (sp_get s j) <= st_hls_idle (sp_get sp j) + 0)) (seq 0 (length (sp_streams sp)))).
+    + intros s i0 [H1 H2]. destruct (hls_kill s i0 j) as [E1 E2]. rewrite E1, E2. auto.
+    + split; auto. intros _. split; auto. lia.
 Qed.
 
 Lemma age_ok_step sp o : age_ok sp -> age_ok (fst (sstep sp o)).
@@ -1377,7 +1436,7 @@ Qed.
 
 Lemma acct_ok_step sp o : acct_ok sp -> acct_ok (fst (sstep sp o)).
 Proof.
-  intros Hc. destruct o as [p hls|i|i|i|p| | |i flv|i flv|i r| |d|i|i|i n]; simpl.
+  intros Hc. destruct o as [p hls|i|i|i|p| | |i flv|i flv|i r| |d|i|i|i n|]; simpl.
   - intros j. unfold sp_get; simpl. rewrite nth_snoc.
     destruct (j <? length (sp_streams sp))%nat; [apply Hc|].
     destruct (Nat.eqb j (length (sp_streams sp))); unfold strm_ok; simpl; auto.
@@ -1415,6 +1474,7 @@ Proof.
     apply acct_ok_set; auto. exact (Hc i).
   - destruct (negb (i <? length (sp_streams sp))%nat || negb (hls_usable (sp_get sp i))); simpl; auto.
     apply acct_ok_set; auto. exact (Hc i).
+  - exact (fire_ind acct_ok (seq 0 (length (sp_streams sp))) (fun s i H => acct_ok_kill s i H) sp Hc).
 Qed.
 
 Lemma acct_ok_init : acct_ok sinit.
@@ -2022,7 +2082,7 @@ Proof. induction l as [|e l IH]; intros sp H; simpl; auto. apply IH, canon_ok_ki
 
 Lemma canon_ok_step sp o : canon_ok sp -> canon_ok (fst (sstep sp o)).
 Proof.
-  intros Hc. destruct o as [p hls|i|i|i|p| | |i flv|i flv|i r| |d|i|i|i n]; simpl; auto.
+  intros Hc. destruct o as [p hls|i|i|i|p| | |i flv|i flv|i r| |d|i|i|i n|]; simpl; auto.
   - unfold canon_ok; simpl. apply Forall_app. split; [exact Hc|]. constructor; [|constructor].
     simpl. apply canonical_path_idem.
   - destruct (i <? length (sp_streams sp))%nat; simpl; [|exact Hc].
@@ -2051,6 +2111,7 @@ Proof.
     apply canon_ok_set; auto.
   - destruct (negb (i <? length (sp_streams sp))%nat || negb (hls_usable (sp_get sp i))); simpl; auto.
     apply canon_ok_set; auto.
+  - exact (fire_ind canon_ok (seq 0 (length (sp_streams sp))) (fun s i H => canon_ok_kill s i H) sp Hc).
 Qed.
 
 Theorem paths_are_canonical : forall ops i,
@@ -2110,3 +2171,122 @@ Proof.
   split; [|vm_compute; auto].
   repeat constructor; vm_compute; auto.
 Qed.
+
+(* ------------------------------------------------------------------ *)
+(* the registry's own pending tasks: which stream a retire task is bound to *)
+
+(* what one run of its retire task (if it has one) does to a stream *)
+Definition fired (s : strm) : strm :=
+  if st_retire s && st_live s && (consumers s <=? 0) && negb (hls_recent s retire_period) then dead_of s else s.
+
+Lemma fire_one_get sp i j :
+  sp_get (if st_retire (sp_get sp i) then fst (sp_idle_task sp i retire_period) else sp) j =
+  if Nat.eqb j i then fired (sp_get sp i) else sp_get sp j.
+Proof.
+  unfold fired. simpl. destruct (st_live (sp_get sp i)) eqn:Hl.
+  - assert (Hi := live_lt _ _ Hl). apply Nat.ltb_lt in Hi. rewrite Hi. simpl negb. cbv iota.
+    destruct (st_retire (sp_get sp i)); simpl.
+    + destruct ((consumers (sp_get sp i) <=? 0) && negb (hls_recent (sp_get sp i) retire_period)); simpl.
+      * rewrite sp_kill_eq, Hl. simpl. rewrite sp_get_set, Hi, andb_true_r. reflexivity.
+      * destruct (Nat.eqb j i) eqn:E; [apply Nat.eqb_eq in E; subst|]; reflexivity.
+    + destruct (Nat.eqb j i) eqn:E; [apply Nat.eqb_eq in E; subst|]; reflexivity.
+  - rewrite andb_false_r. simpl.
+    assert (H : forall s : sstate, s = sp -> sp_get s j = if Nat.eqb j i then sp_get sp i else sp_get sp j).
+    { intros s ->. destruct (Nat.eqb j i) eqn:E; [apply Nat.eqb_eq in E; subst|]; reflexivity. }
+    apply H. destruct (st_retire (sp_get sp i)); auto.
+    destruct (negb (i <? length (sp_streams sp))%nat); simpl; auto.
+    destruct ((consumers (sp_get sp i) <=? 0) && negb (hls_recent (sp_get sp i) retire_period)); simpl; auto.
+    rewrite sp_kill_eq, Hl. reflexivity.
+Qed.
+
+Lemma existsb_eqb_notin j l : ~ In j l -> existsb (Nat.eqb j) l = false.
+Proof.
+  induction l as [|x l IH]; simpl; intros H; auto.
+  rewrite IH by tauto. destruct (Nat.eqb j x) eqn:E; auto. apply Nat.eqb_eq in E. subst. tauto.
+Qed.
+
+Lemma fire_list_get l : forall sp j,
+  NoDup l ->
+  sp_get (fire_list sp l) j = if existsb (Nat.eqb j) l then fired (sp_get sp j) else sp_get sp j.
+Proof.
+  induction l as [|i l IH]; intros sp j Hn; [reflexivity|].
+  inversion Hn as [|? ? Hni Hn']; subst.
+  change (fire_list sp (i :: l))
+    with (fire_list (if st_retire (sp_get sp i) then fst (sp_idle_task sp i retire_period) else sp) l).
+  rewrite IH by exact Hn'. rewrite fire_one_get. simpl existsb.
+  destruct (Nat.eqb j i) eqn:E; simpl.
+  - apply Nat.eqb_eq in E; subst j. rewrite existsb_eqb_notin by exact Hni. reflexivity.
+  - reflexivity.
+Qed.
+
+(* the effect of firing every pending task: each stream, independently, undergoes its own task *)
+Theorem fire_effect : forall sp j, sp_get (fst (sstep sp GFire)) j = fired (sp_get sp j).
+Proof.
+  intros sp j. rewrite fire_step, fire_list_get by apply seq_NoDup.
+  destruct (existsb (Nat.eqb j) (seq 0 (length (sp_streams sp)))) eqn:E; [reflexivity|].
+  assert (L : (length (sp_streams sp) <= j)%nat).
+  { destruct (Nat.lt_ge_cases j (length (sp_streams sp))) as [L|L]; auto.
+    exfalso. assert (X : existsb (Nat.eqb j) (seq 0 (length (sp_streams sp))) = true).
+    { apply existsb_exists. exists j. split; [apply in_seq; lia | apply Nat.eqb_refl]. }
+    congruence. }
+  unfold sp_get. rewrite nth_overflow by exact L. reflexivity.
+Qed.
+
+(* a fired task closes only the stream it was created for (the one replaced while it had consumers)
+   and only when that stream is unused; registering a stream never puts that stream under a task *)
+Theorem retire_task_targets_old_stream : forall ops j,
+  let sp := sexec sinit ops in
+  let sp' := fst (sstep sp GFire) in
+  (st_retire (sp_get sp j) = false -> sp_get sp' j = sp_get sp j) /\
+  (st_live (sp_get sp j) = true -> st_live (sp_get sp' j) = false ->
+     st_retire (sp_get sp j) = true /\ st_rtp (sp_get sp j) = 0 /\ st_flv (sp_get sp j) = 0 /\
+     (st_hls (sp_get sp j) = false \/ retire_period <= st_hls_idle (sp_get sp j))) /\
+  (forall i, st_retire (sp_get (fst (sstep sp (GRegist i))) i) = st_retire (sp_get sp i)).
+Proof.
+  intros ops j sp sp'. unfold sp'. rewrite fire_effect. unfold fired.
+  refine (conj _ (conj _ _)).
+  - intros H. rewrite H. reflexivity.
+  - intros Hl. rewrite Hl, andb_true_r.
+    destruct (st_retire (sp_get sp j)); simpl; [|congruence].
+    destruct (consumers (sp_get sp j) <=? 0) eqn:C; simpl; [|congruence].
+    destruct (hls_recent (sp_get sp j) retire_period) eqn:R; simpl; [congruence|].
+    intros _. destruct (reach_cnt_ok ops j) as [Hr Hf]. fold sp in Hr, Hf.
+    apply Z.leb_le in C. unfold consumers in C. unfold hls_recent in R.
+    apply andb_false_iff in R. rewrite Z.ltb_ge in R. repeat split; auto; lia.
+  - intros i. simpl. destruct (i <? length (sp_streams sp))%nat; simpl; auto.
+    destruct (sp_resolve sp (st_path (sp_get sp i))) as [x|]; auto.
+    destruct (Nat.eqb i x) eqn:E; auto. apply Nat.eqb_neq in E.
+    destruct (consumers (sp_get sp x) <=? 0); simpl.
+    + rewrite other_kill by exact E. reflexivity.
+    + rewrite sp_get_set. apply Nat.eqb_neq in E. rewrite E. reflexivity.
+Qed.
+
+(* the retired stream is closed by its task once its consumers have left (and HLS has been silent
+   for the period): the task never forgets it *)
+Theorem retired_stream_eventually_closed : forall sp j,
+  st_retire (sp_get sp j) = true ->
+  st_rtp (sp_get sp j) = 0 -> st_flv (sp_get sp j) = 0 ->
+  (st_hls (sp_get sp j) = false \/ retire_period <= st_hls_idle (sp_get sp j)) ->
+  st_live (sp_get (fst (sstep sp GFire)) j) = false.
+Proof.
+  intros sp j Hr H1 H2 H3. rewrite fire_effect. unfold fired. rewrite Hr. simpl.
+  destruct (st_live (sp_get sp j)) eqn:Hl; simpl; [|exact Hl].
+  assert (C : consumers (sp_get sp j) <=? 0 = true) by (apply Z.leb_le; unfold consumers; lia).
+  assert (R : hls_recent (sp_get sp j) retire_period = false).
+  { unfold hls_recent. apply andb_false_iff. rewrite Z.ltb_ge. exact H3. }
+  rewrite C, R. reflexivity.
+Qed.
+
+(* A (with a viewer) is replaced by B: the task posted watches A.  It fires while the viewer is
+   attached: nothing happens, B stays.  The viewer leaves, the task fires: A is closed, B stays. *)
+Definition example_retire : list gop :=
+  [ GNew [47;97] false; GRegist 0; GAttach 0 false; GNew [47;65] false; GRegist 1;
+    GFire; GGet [47;97]; GDetach 0 false; GFire; GGet [47;97]; GCount ].
+
+Example example_retire_ok :
+  hist_wf sinit example_retire = true /\
+  snd (grun rfixed rinit example_retire) = srun sinit example_retire /\
+  srun sinit example_retire =
+    [ RUnit; RUnit; RUnit; RUnit; RUnit; RUnit; RGet (Some 1%nat); RUnit; RUnit; RGet (Some 1%nat); RCount 1 0 ] /\
+  end_vec (sp_streams (sexec sinit example_retire)) = [(false, 1, 1); (true, 0, 0)].
+Proof. vm_compute. auto. Qed.
